@@ -69,6 +69,7 @@ const char *tok (void)
 	return TOK[CUR++];
 }
 int more (void) { return CUR < NTOK; }
+void qsx_unget (void) { if (CUR > 0) CUR--; }
 int tok_int (void) { return atoi (tok ()); }
 void tok_q (mpq_t q)
 {
